@@ -20,9 +20,12 @@ Oracle: models/strref.py (Python slices written from the statement and the manua
 """
 import itertools
 
-from mc.core import Leg, Partial, CheckError, chunked
+from mc.core import Leg, Partial, CheckError, chunked, from_pcbasic
 from mc import harness as H
+from mc import nosleep
 from models import strref as R
+
+nosleep.install()
 
 PROPERTY = 'C09'
 ENGINE = 'E1 domain'
@@ -63,7 +66,7 @@ OVF = R.OVF
 # alphabets
 
 S_QUICK = [b'', b'a', b'ab', b'abc', b'aab', b'\x00', b'\xff"\x00', b'x' * 254 + b'y', b'x' * 255]
-S_MORE = [b'abcd', b'ab' * 127, b'y' + b'x' * 253, bytes(range(1, 256)), bytes(range(0, 255)), b'\x00\x00\x00',
+S_MORE = [b'abcd', b'0123456789', b'm' * 128, b'ab' * 127, b'y' + b'x' * 253, bytes(range(1, 256)), bytes(range(0, 255)), b'\x00\x00\x00',
           b'ab' * 127 + b'a']
 
 N_QUICK = [('-32769', OVF), ('-32768', -32768), ('-1', -1), ('0', 0), ('1', 1), ('2', 2), ('3', 3), ('4', 4),
@@ -240,6 +243,38 @@ def gen_lrset(tier):
             yield {'fn': fn, 'T': 'NEVER$', 'A': None, 'B': b, 'rhs': 'B$'}
 
 
+def gen_churn(tier):
+    """Function calls repeated / followed by string-space churn (forces garbage collection)."""
+    big = b'x' * 254 + b'y'
+    small = b'hello'
+    for a in (big, small):
+        la = len(a)
+        for form in ('var', 'tmp'):
+            for n in (0, 1, la, 255, 256):
+                yield {'fn': 'churn', 'f': 'LEFT$', 'A': a, 'form': form, 'v': [n]}
+                yield {'fn': 'churn', 'f': 'RIGHT$', 'A': a, 'form': form, 'v': [n]}
+            for pn in ((1, 0), (1, 1), (1, None), (2, None), (la, 1), (la, 0), (la + 1, 1), (la + 1, None),
+                       (la + 2, None), (255, None), (255, 0), (0, 1), (256, None)):
+                if pn[0] > 256:
+                    continue
+                yield {'fn': 'churn', 'f': 'MID$', 'A': a, 'form': form, 'v': list(pn)}
+            for child in (a[:1], a[-1:], a[1:3], b'q', b'', a + b'q' if la < 255 else a):
+                for start in (None, 1, 2, la, la + 1, 255, 0):
+                    if start is not None and start > 255:
+                        continue
+                    yield {'fn': 'churn', 'f': 'INSTR', 'A': a, 'B': child, 'form': form, 'v': [start]}
+            yield {'fn': 'churn', 'f': 'ASC', 'A': a, 'form': form, 'v': []}
+            yield {'fn': 'churn', 'f': 'LEN', 'A': a, 'form': form, 'v': []}
+            for b in (b'q', b'', a):
+                yield {'fn': 'churn', 'f': 'STRING$', 'A': a, 'B': b, 'form': form, 'v': [3]}
+                yield {'fn': 'churn', 'f': 'cmp', 'A': a, 'B': b, 'form': form, 'v': []}
+                yield {'fn': 'churn', 'f': '+', 'A': a[:100], 'B': b[:100], 'form': form, 'v': []}
+                yield {'fn': 'churn', 'f': 'LSET', 'A': a, 'B': b, 'form': form, 'v': []}
+                yield {'fn': 'churn', 'f': 'RSET', 'A': a, 'B': b, 'form': form, 'v': []}
+                for pn in ((1, None), (2, 1), (la, None), (la + 1, None), (1, 0)):
+                    yield {'fn': 'churn', 'f': 'MID$=', 'A': a, 'B': b, 'form': form, 'v': list(pn)}
+
+
 def gen_program(tier):
     targets = ['abcdef', 'a', 'abc']
     values = ['', 'X', 'XY', 'XYZWVUTS']
@@ -255,6 +290,7 @@ def gen_program(tier):
 GENERATORS = {
     'slice': gen_slice, 'search': gen_search, 'build': gen_build, 'sweep': gen_sweep,
     'compare': gen_compare, 'midstmt': gen_midstmt, 'lrset': gen_lrset, 'program': gen_program,
+    'churn': gen_churn,
 }
 
 _CASES = {}
@@ -301,7 +337,8 @@ class Ses(object):
 
     def run(self, stmt):
         self.count += 1
-        return H.run(self.s, stmt)
+        # keep the cursor on the top row: an error message then never scrolls the (slow) screen buffer
+        return H.run(self.s, b'LOCATE 1,1:' + stmt)
 
     def close(self):
         self.s.close()
@@ -366,7 +403,7 @@ def exec_case(ses, part, case):
         out = _verdict(part, case, fn.lower(), cls, r, errs, [exp], got, stmt.decode('latin-1') + ' with A$=%r' % _short([a])[0])
         if ses.getv('A$') != a:
             part.violation('%s/operand-modified' % fn.lower(), '%s changed A$' % stmt.decode('latin-1'), case)
-        part.classes.add('%s:%s:%s:%s:%s' % (fn, case['form'], scls(a), cls, out))
+        part.classes.add('%s:%s:%s:%s' % (fn, case['form'], cls, out))
         part.outcome(out)
     elif fn == 'INSTR':
         a, b = case['A'], case['B']
@@ -377,7 +414,7 @@ def exec_case(ses, part, case):
         opb = _operand(b'B$', b, case['form'])
         stmt = b'R%=INSTR(' + b''.join(t.encode() + b',' for t in case['n']) + opa + b',' + opb + b')'
         errs, exp = R.instr(case['v'][0], a, b)
-        cls = '%s,%s,%s' % (ncls(case['v'][0], len(a)), scls(a), scls(b))
+        cls = '%s,%s' % (ncls(case['v'][0], len(a)), 'empty' if not b else 'child')
         r = ses.run(stmt)
         got = ses.getv('R%')
         out = _verdict(part, case, 'instr', cls, r, errs, exp or (), got,
@@ -437,7 +474,7 @@ def exec_case(ses, part, case):
                        'A$+B$ with LEN %d + %d' % (len(a), len(b)))
         if ses.getv('A$') != a or ses.getv('B$') != b:
             part.violation('concat/operand-modified', 'A$+B$ changed an operand', case)
-        part.classes.add('+:%s:%s:%s:%s' % (scls(a), scls(b), cls, out))
+        part.classes.add('+:%s:%s' % (cls, out))
         part.outcome(out)
     elif fn == 'cmp':
         a, b, rel = case['A'], case['B'], case['rel']
@@ -462,6 +499,8 @@ def exec_case(ses, part, case):
         _exec_lrset(ses, part, case)
     elif fn.startswith('prog-'):
         _exec_program(part, case)
+    elif fn == 'churn':
+        _exec_churn(part, case)
     else:
         raise CheckError('unknown case %r' % (case,))
 
@@ -523,7 +562,7 @@ def _exec_midstmt(ses, part, case):
     detail = '%s with %s=%r%s' % (stmt.decode(), target, _short([a])[0],
                                   ' B$=%r' % _short([b])[0] if rhs == 'B$' else '')
     part.outcome('err%d' % r.err if r.err else 'ok')
-    part.classes.add('MID$=:%s:%s:%s:%s' % (target, scls(a), cls, 'err%d' % r.err if r.err else 'ok'))
+    part.classes.add('MID$=:%s:%s:%s' % (target, cls, 'err%d' % r.err if r.err else 'ok'))
     if r.exc is not None:
         part.violation('midstmt/host-exception/%s' % H.exc_key(r.exc), '%s: %r' % (detail, r.exc), case)
         return
@@ -654,16 +693,163 @@ def _exec_program(part, case):
         part.violation('program/%s/wrong-value' % cls, '%s: err %r out %r, reference %r' % (line, err, out, want), case)
 
 
+REPEATS = 270          # 270 x 255 bytes > the 60 kB of free memory: a leak of one operand per call shows
+CHURN = b'FOR I%=1 TO 300:Q$=STRING$(255,"z"):NEXT'
+
+
+def _exec_churn(part, case):
+    """The call is repeated (or, if it raises, made once), then string space is churned so that
+    garbage collection runs; results and operands must still be the reference values."""
+    f, a, form, v = case['f'], case['A'], case['form'], case['v']
+    b = case.get('B', b'')
+    opa = 'A$' if form == 'var' else 'A$+""'
+    opb = 'B$' if form == 'var' else 'B$+""'
+    res = 'R$'
+    target_changes = None
+    if f in ('LEFT$', 'RIGHT$'):
+        stmt = 'R$=%s(%s,%d)' % (f, opa, v[0])
+        errs, exp = (R.left if f == 'LEFT$' else R.right)(a, v[0])
+        cls = 'n' + ncls(v[0], len(a))
+    elif f == 'MID$':
+        stmt = 'R$=MID$(%s,%d%s)' % (opa, v[0], '' if v[1] is None else ',%d' % v[1])
+        errs, exp = R.mid(a, v[0], v[1])
+        cls = 'p%s,n%s' % (ncls(v[0], len(a)), ncls(v[1]))
+    elif f == 'INSTR':
+        res = 'R%'
+        stmt = 'R%%=INSTR(%s%s,%s)' % ('' if v[0] is None else '%d,' % v[0], opa, opb)
+        errs, exps = R.instr(v[0], a, b)
+        exp = exps
+        cls = 's%s,%s' % (ncls(v[0], len(a)), 'empty' if not b else ('found' if exps and max(exps) > 0 else 'notfound'))
+    elif f in ('ASC', 'LEN'):
+        res = 'R%'
+        stmt = 'R%%=%s(%s)' % (f, opa)
+        errs, exp = (R.asc if f == 'ASC' else R.len_)(a)
+        cls = ''
+    elif f == 'STRING$':
+        stmt = 'R$=STRING$(3,%s)' % opb
+        errs, exp = R.string_(3, b)
+        cls = 'str-' + scls(b)
+    elif f == 'cmp':
+        res = 'R%'
+        stmt = 'R%%=(%s<%s)' % (opa, opb)
+        errs, exp = R.compare('<', a, b)
+        cls = ''
+    elif f == '+':
+        stmt = 'R$=%s+%s' % (opa, opb)
+        errs, exp = R.concat(a, b)
+        cls = ''
+    elif f in ('LSET', 'RSET'):
+        res = 'A$'
+        stmt = '%s A$=%s' % (f, opb)
+        errs, exp = (R.lset if f == 'LSET' else R.rset)(a, b)
+        cls = ''
+    elif f == 'MID$=':
+        res = 'A$'
+        stmt = 'MID$(A$,%d%s)=%s' % (v[0], '' if v[1] is None else ',%d' % v[1], opb)
+        errs, exp, optional = R.mid_statement(a, v[0], v[1], b)
+        if optional:
+            return
+        cls = 'p%s,n%s' % (ncls(v[0], len(a)), ncls(v[1]))
+    else:
+        raise CheckError(f)
+    fk = f.lower().replace('=', '-stmt')
+    cls = '%s:%s:%s' % (form, scls(a), cls)
+    if f == 'STRING$' and b == b'':
+        return          # reported by the build leg (string$/empty-string-accepted)
+    s = H.new_session(horizon=100000)
+    try:
+        s.set_variable('A$', a)
+        s.set_variable('B$', b)
+        if res != 'A$':
+            s.set_variable(res, SENT if res == 'R$' else -7)
+        detail = '%s with A$=%r B$=%r' % (stmt, _short([a])[0], _short([b])[0])
+        if errs:
+            r = H.run(s, stmt.encode())
+            part.traces += 1
+            if r.exc is None and r.err not in errs:
+                part.violation('churn/%s/error-missed-or-wrong/%s' % (fk, cls), '%s: err %r, reference %s' % (
+                    detail, r.err, sorted(errs)), case)
+                return
+            first = 'the call (error %r)' % r.err
+        else:
+            loop = 'FOR J%%=1 TO %d:%s:NEXT' % (REPEATS, stmt)
+            r = H.run(s, b'LOCATE 1,1:' + loop.encode())
+            part.traces += REPEATS
+            first = '%d repeats' % REPEATS
+            if r.exc is None and r.err is not None:
+                key = 'out-of-string-space-on-repeat' if r.err == 14 else 'error-on-repeat'
+                part.violation('churn/%s/%s/%s' % (fk, key, cls),
+                               '%s repeated %d times: error %d after %s iterations' % (
+                                   detail, REPEATS, r.err, s.get_variable('J%')), case)
+                return
+        if r.exc is not None:
+            part.violation('churn/%s/host-exception/%s/%s' % (fk, H.exc_key(r.exc), cls), '%s: %r' % (detail, r.exc), case)
+            return
+        r = H.run(s, b'LOCATE 1,1:' + CHURN)
+        part.traces += 300
+        if r.exc is not None:
+            part.violation('churn/%s/host-exception-in-later-garbage-collection/%s/%s' % (fk, H.exc_key(r.exc), cls),
+                           '%s, then %s: %r' % (detail, CHURN.decode(), r.exc), case)
+            return
+        if r.err is not None:
+            part.violation('churn/%s/error-in-later-string-allocation/%s' % (fk, cls),
+                           '%s, then %s: error %d' % (detail, CHURN.decode(), r.err), case)
+            return
+        # one more call after the collection, then look at everything
+        r = H.run(s, stmt.encode())
+        if r.exc is not None:
+            part.violation('churn/%s/host-exception/%s/%s' % (fk, H.exc_key(r.exc), cls), '%s after churn: %r' % (detail, r.exc), case)
+            return
+        got = s.get_variable(res)
+        if errs:
+            ok = r.err in errs
+        elif f == 'INSTR':
+            ok = r.err is None and got in exp
+        elif res == 'A$':
+            # in-place statements applied repeatedly: idempotent for these alphabets except self-feeding
+            ok = r.err is None and got == exp
+        else:
+            ok = r.err is None and got == exp
+        if not ok:
+            part.violation('churn/%s/wrong-after-garbage-collection/%s' % (fk, cls),
+                           '%s after %s and churn: err %r, %s=%r, reference %r' % (
+                               detail, first, r.err, res, _short([got])[0], exp if errs == set() else sorted(errs)), case)
+        if res != 'A$' and s.get_variable('A$') != a:
+            part.violation('churn/%s/operand-lost-after-garbage-collection/%s' % (fk, cls), '%s: A$ is now %r' % (
+                detail, _short([s.get_variable('A$')])[0]), case)
+        if s.get_variable('B$') != b:
+            part.violation('churn/%s/operand-lost-after-garbage-collection/%s' % (fk, cls), '%s: B$ is now %r' % (
+                detail, _short([s.get_variable('B$')])[0]), case)
+        part.classes.add('churn:%s:%s:%s' % (f, cls, 'err' if errs else 'ok'))
+        part.outcome('err' if errs else 'ok')
+    finally:
+        s.close()
+
+
 # ---------------------------------------------------------------------------
 
 def work(shard):
     leg, tier, lo, hi = shard
     cases = cases_of(leg, tier)
     part = Partial()
+    # a fresh session per shard: shards are small, so that state left behind by one case
+    # (the churn leg looks for exactly that) cannot pile up over thousands of cases
     ses = Ses()
     try:
         for case in cases[lo:hi]:
-            exec_case(ses, part, case)
+            try:
+                exec_case(ses, part, case)
+            except CheckError:
+                raise
+            except Exception as e:
+                # an exception out of a harness-level call (set_variable / get_variable) that was raised
+                # inside pcbasic: state accumulated over the previous cases of this shard broke the session
+                if not from_pcbasic(e):
+                    raise
+                part.violation('accumulated-state/host-exception/%s' % H.exc_key(e),
+                               'after %d statements in one session: %r' % (ses.count, e), case)
+                ses.close()
+                ses = Ses()
     finally:
         ses.close()
     part.sample(cases[lo])
@@ -680,6 +866,8 @@ BOUNDS = {
     'midstmt': 'MID$(T,p[,n])=rhs: S x N x (N+omitted) x (S u 4 self-referencing forms), scalar target; reduced '
                'alphabet for array-element target',
     'lrset': 'LSET/RSET: S x (S u 4 self-referencing forms), scalar and array-element targets, unassigned target',
+    'churn': 'each function on a 255-byte and a 5-byte operand (variable / temporary), boundary arguments, repeated 270 '
+             'times (or once when it raises) and followed by 300 x 255 bytes of string allocation (garbage collection)',
     'program': 'MID$/LSET/RSET on a literal in program text: 3 targets x 4 values x 4 positions x 5 lengths, run twice',
 }
 
@@ -687,17 +875,26 @@ BOUNDS = {
 def legs(ctx):
     tier = 'quick' if ctx.quick else 'thorough'
     S, N = alph(tier)
-    names = ['slice', 'search', 'build', 'compare', 'midstmt', 'lrset', 'program']
+    names = ['slice', 'search', 'build', 'compare', 'midstmt', 'lrset', 'program', 'churn']
     if not ctx.quick:
         names.insert(3, 'sweep')
     out = []
     for name in names:
         n = len(cases_of(name, tier))
-        size = 60 if name == 'program' else max(100, min(600, n // 200 + 1))
+        size = 60 if name == 'program' else (8 if name == 'churn' else max(150, min(250, n // 64 + 1)))
         shards = [(name, tier, lo, min(lo + size, n)) for lo in range(0, n, size)]
         out.append(Leg(name, shards, work, exhaustive=True,
                        bound='%s; |S|=%d, |N|=%d, %d cases' % (BOUNDS[name], len(S), len(N), n)))
+    _freeze_heap()
     return out
+
+
+def _freeze_heap():
+    """The worker pool is forked after legs(): keep the cyclic collector of the children away from the
+    (large) inherited heap, otherwise every full collection copies all inherited pages."""
+    import gc
+    gc.collect()
+    gc.freeze()
 
 
 def replay(ctx, leg, case):
